@@ -10,9 +10,25 @@ Definition listid_name (l : listid) : str :=
 Definition dspec_row (sp : dspec) : str * str * str * bool * bool * bool :=
   (d_name sp, listid_name (d_list sp), d_dec sp, d_msg sp, d_anchor sp, d_tilde sp).
 
-Lemma tie_rule_directives : CFG_RULE_DIRECTIVES = map dspec_row rule_dirs.
+(* the branches of the chain compare one string with distinct constants, so their order is immaterial:
+   the translator sorts by name and so do we *)
+Fixpoint str_leb (a b : str) : bool :=
+  match a, b with
+  | [], _ => true
+  | _ :: _, [] => false
+  | x :: a', y :: b' => if N.ltb x y then true else if N.eqb x y then str_leb a' b' else false
+  end.
+Fixpoint insert_by {A} (key : A -> str) (x : A) (l : list A) : list A :=
+  match l with
+  | [] => [x]
+  | y :: r => if str_leb (key x) (key y) then x :: l else y :: insert_by key x r
+  end.
+Definition sort_by {A} (key : A -> str) (l : list A) : list A := fold_right (insert_by key) [] l.
+Definition row_name (r : str * str * str * bool * bool * bool) : str := fst (fst (fst (fst (fst r)))).
+
+Lemma tie_rule_directives : CFG_RULE_DIRECTIVES = sort_by row_name (map dspec_row rule_dirs).
 Proof. vm_compute; reflexivity. Qed.
-Lemma tie_directives : CFG_DIRECTIVES = map d_name rule_dirs ++ [$"alias"; $"set"].
+Lemma tie_directives : CFG_DIRECTIVES = sort_by (fun s => s) (map d_name rule_dirs ++ [$"alias"; $"set"]).
 Proof. vm_compute; reflexivity. Qed.
 Lemma tie_line_sep : CFG_LINE_SEP = [NL].
 Proof. vm_compute; reflexivity. Qed.
